@@ -4,10 +4,11 @@ of ids per key) and a chain table, and the per-operation simulation lemmas.
 -/
 import EngineModel.Db.Chain
 import EngineModel.Spec.Ordered
+import Proofs.ListAux
 
 namespace EngineModel.Db.Chain
 
-open EngineModel.Spec
+open EngineModel.Spec EngineModel.ListAux
 
 variable {α : Type}
 
@@ -340,6 +341,9 @@ theorem mem_updNext {p : Row α → Bool} {e : Int → Int} {t : Table α} {r' :
 @[simp] theorem ids_updNext (p : Row α → Bool) (e : Int → Int) (t : Table α) : ids (updNext p e t) = ids t := by
   simp [ids, updNext, Function.comp_def]
 
+theorem mem_rowsOf {t : Table α} {k : Int} {r : Row α} : r ∈ rowsOf t k ↔ r ∈ t ∧ r.key = k := by
+  simp [rowsOf]
+
 /-! ### basic consequences of `R` -/
 
 theorem eq_of_id_eq {t : Table α} (hn : (ids t).Nodup) {r r' : Row α} (hr : r ∈ t) (hr' : r' ∈ t)
@@ -435,14 +439,11 @@ theorem insertBefore_eq {t : Table α} (hnn : ∀ r ∈ t, 0 ≤ r.next) {b : In
   · have : b ≠ -(1 + b) := by omega
     simp [updRow, this]
 
-theorem R_insertBefore {A : Int → List Int} {t : Table α} (h : R A t) {n k b : Int} (v : α)
+/-- The table after an insertion, in characterised form. -/
+theorem R_insertChar {A : Int → List Int} {t : Table α} (h : R A t) {n k b : Int} (v : α)
     (hpos : 0 < n) (hfresh : n ∉ ids t) (hb : b = 0 ∨ b ∈ A k) :
-    R (setKey A k (Ordered.insertBefore b n (A k))) (insertBefore t n k b v) := by
-  have hb0 : 0 ≤ b := by
-    rcases hb with hb | hb
-    · omega
-    · exact Int.le_of_lt (h.pos hb)
-  rw [insertBefore_eq (fun r hr => h.next_nonneg hr) hb0]
+    R (setKey A k (Ordered.insertBefore b n (A k)))
+      (updNext (fun r => r.next == b && r.key == k) (fun _ => n) t ++ [⟨n, k, b, v⟩]) := by
   have hnA : ∀ k', n ∉ A k' := h.not_mem_of_fresh hfresh
   constructor
   · -- ids
@@ -501,35 +502,424 @@ theorem R_insertBefore {A : Int → List Int} {t : Table α} (h : R A t) {n k b 
       obtain ⟨r, hr, e1, e2⟩ := h.cover k' x hx
       exact ⟨_, List.mem_append_left _ (mem_updNext.mpr ⟨r, hr, rfl⟩), by simpa using e1, by simpa using e2⟩
 
-/-! ### the backwards walk (`sort_ids`, `get_for_list`) -/
+theorem R_insertBefore {A : Int → List Int} {t : Table α} (h : R A t) {n k b : Int} (v : α)
+    (hpos : 0 < n) (hfresh : n ∉ ids t) (hb : b = 0 ∨ b ∈ A k) :
+    R (setKey A k (Ordered.insertBefore b n (A k))) (insertBefore t n k b v) := by
+  have hb0 : 0 ≤ b := by
+    rcases hb with hb | hb
+    · omega
+    · exact Int.le_of_lt (h.pos hb)
+  rw [insertBefore_eq (fun r hr => h.next_nonneg hr) hb0]
+  exact R_insertChar h v hpos hfresh hb
 
-theorem length_le_of_nodup_subset {l m : List Int} (hn : l.Nodup) (hs : ∀ x ∈ l, x ∈ m) :
-    l.length ≤ m.length := by
-  induction l generalizing m with
-  | nil => simp
-  | cons a l ih =>
-    have hn' := List.nodup_cons.mp hn
-    have ha : a ∈ m := hs a (by simp)
-    have hsub : ∀ x ∈ l, x ∈ m.erase a := by
-      intro x hx
-      have hne : x ≠ a := fun e => hn'.1 (e ▸ hx)
-      exact (List.mem_erase_of_ne hne).mpr (hs x (List.mem_cons_of_mem _ hx))
-    have := ih hn'.2 hsub
-    rw [List.length_erase_of_mem ha] at this
-    have hpos : 0 < m.length := List.length_pos_of_mem ha
-    simp only [List.length_cons]; omega
+/-! ### add_back -/
 
-theorem find?_unique {β : Type} {p : β → Bool} {l : List β} {r : β} (hr : r ∈ l) (hp : p r = true)
-    (hu : ∀ r' ∈ l, p r' = true → r' = r) : l.find? p = some r := by
+theorem insertBefore_zero {n : Int} {l : List Int} (h0 : ∀ y ∈ l, y ≠ 0) :
+    Ordered.insertBefore 0 n l = l ++ [n] := by
   induction l with
-  | nil => simp at hr
+  | nil => rfl
   | cons a l ih =>
-    by_cases ha : p a = true
-    · rw [List.find?_cons_of_pos ha, hu a (by simp) ha]
-    · rw [List.find?_cons_of_neg ha]
-      rcases List.mem_cons.mp hr with h | h
-      · subst h; exact absurd hp ha
-      · exact ih h (fun r' hr' => hu r' (List.mem_cons_of_mem _ hr'))
+    have : a ≠ 0 := h0 a (by simp)
+    simp only [Ordered.insertBefore, if_neg this, List.cons_append]
+    rw [ih (fun y hy => h0 y (List.mem_cons_of_mem _ hy))]
+
+theorem appendBack_eq {t : Table α} {n : Int} (hfresh : n ∉ ids t) (k : Int) (v : α) :
+    appendBack t n k v = updNext (fun r => r.next == 0 && r.key == k) (fun _ => n) t ++ [⟨n, k, 0, v⟩] := by
+  unfold appendBack updNext
+  simp only [List.map_append, List.map_cons, List.map_nil]
+  congr 1
+  · apply List.map_congr_left
+    intro r hr
+    have hne : r.id ≠ n := by
+      intro e; apply hfresh; simp only [ids, List.mem_map]; exact ⟨r, hr, e⟩
+    unfold updRow
+    by_cases h1 : r.key = k <;> by_cases h2 : r.next = 0 <;> simp [h1, h2, hne]
+  · simp [updRow]
+
+theorem R_appendBack {A : Int → List Int} {t : Table α} (h : R A t) {n k : Int} (v : α)
+    (hpos : 0 < n) (hfresh : n ∉ ids t) :
+    R (setKey A k (A k ++ [n])) (appendBack t n k v) := by
+  rw [appendBack_eq hfresh, ← insertBefore_zero (h.ne0 k)]
+  exact R_insertChar h v hpos hfresh (Or.inl rfl)
+
+/-! ### DELETE of one row with re-linking of its predecessor -/
+
+/-- Characterised form: the predecessor of `i` (in key `k`) inherits `nx`, the row `i` goes. -/
+def spliceOut (t : Table α) (i k nx : Int) : Table α :=
+  (updNext (fun r => r.next == i && r.key == k) (fun _ => nx) t).filter (fun r => r.id != i)
+
+theorem mem_spliceOut {t : Table α} {i k nx : Int} {r' : Row α} :
+    r' ∈ spliceOut t i k nx ↔ ∃ r ∈ t, r.id ≠ i ∧ updRow (fun r => r.next == i && r.key == k) (fun _ => nx) r = r' := by
+  unfold spliceOut
+  simp only [List.mem_filter, mem_updNext, bne_iff_ne, ne_eq]
+  constructor
+  · rintro ⟨⟨r, hr, rfl⟩, hne⟩
+    exact ⟨r, hr, by simpa using hne, rfl⟩
+  · rintro ⟨r, hr, hne, rfl⟩
+    exact ⟨⟨r, hr, rfl⟩, by simpa using hne⟩
+
+theorem nodup_ids_filter {t : Table α} (p : Row α → Bool) (h : (ids t).Nodup) : (ids (t.filter p)).Nodup := by
+  unfold ids at *
+  exact List.Nodup.sublist (List.Sublist.map _ List.filter_sublist) h
+
+theorem R_spliceOut {A : Int → List Int} {t : Table α} (h : R A t) {old : Row α} (hold : old ∈ t) :
+    R (setKey A old.key ((A old.key).erase old.id)) (spliceOut t old.id old.key old.next) := by
+  have hnd := h.nodup old.key
+  have h0 := h.ne0 old.key
+  constructor
+  · unfold spliceOut
+    apply nodup_ids_filter
+    rw [ids_updNext]; exact h.ids_nodup
+  · intro r hr
+    obtain ⟨r0, hr0, _, rfl⟩ := mem_spliceOut.mp hr
+    simpa using h.id_pos r0 hr0
+  · intro k'
+    by_cases hk : k' = old.key
+    · subst hk; rw [setKey_same]; exact List.Nodup.erase _ hnd
+    · rw [setKey_other _ _ hk]; exact h.nodup _
+  · intro r hr
+    obtain ⟨r0, hr0, hne, rfl⟩ := mem_spliceOut.mp hr
+    rw [updRow_key, updRow_id]
+    by_cases hk : r0.key = old.key
+    · rw [hk, setKey_same]
+      exact (List.mem_erase_of_ne hne).mpr (hk ▸ h.mem r0 hr0)
+    · rw [setKey_other _ _ hk]; exact h.mem r0 hr0
+  · intro r hr
+    obtain ⟨r0, hr0, hne, rfl⟩ := mem_spliceOut.mp hr
+    rw [updRow_key, updRow_id, updRow_next]
+    have hnx := h.next r0 hr0
+    by_cases hk : r0.key = old.key
+    · rw [hk, setKey_same, succ_erase hnd h0 (hk ▸ h.mem r0 hr0) hne, ← hk, ← hnx, hk, ← h.next old hold]
+      by_cases hn : r0.next = old.id
+      · simp [hn, hk]
+      · simp [hn]
+    · have : (r0.next == old.id && r0.key == old.key) = false := by simp [hk]
+      simp only [this, Bool.false_eq_true, if_false]
+      rw [setKey_other _ _ hk]; exact hnx
+  · intro k' x hx
+    by_cases hk : k' = old.key
+    · subst hk
+      rw [setKey_same] at hx
+      have hx' := (List.Nodup.mem_erase_iff hnd).mp hx
+      obtain ⟨r, hr, e1, e2⟩ := h.cover _ x hx'.2
+      exact ⟨_, mem_spliceOut.mpr ⟨r, hr, by rw [e1]; exact hx'.1, rfl⟩, by simpa using e1, by simpa using e2⟩
+    · rw [setKey_other _ _ hk] at hx
+      obtain ⟨r, hr, e1, e2⟩ := h.cover _ x hx
+      have hne : r.id ≠ old.id := by
+        intro e
+        have := eq_of_id_eq h.ids_nodup hr hold e
+        rw [this] at e2; exact hk e2.symm
+      exact ⟨_, mem_spliceOut.mpr ⟨r, hr, hne, rfl⟩, by simpa using e1, by simpa using e2⟩
+
+theorem find_rowsOf {A : Int → List Int} {t : Table α} (h : R A t) {k i : Int} {old : Row α}
+    (hf : (rowsOf t k).find? (·.id == i) = some old) : old ∈ t ∧ old.id = i ∧ old.key = k := by
+  have h1 := List.mem_of_find?_eq_some hf
+  have h2 := List.find?_some hf
+  obtain ⟨ht, hk⟩ := mem_rowsOf.mp h1
+  exact ⟨ht, by simpa using h2, hk⟩
+
+/-- `DELETE FROM PlaylistEntity WHERE listId = k AND id = i` (trigger firing): `i` leaves the list of `k`. -/
+theorem R_deleteKeyed {A : Int → List Int} {t : Table α} (h : R A t) (fires : Row α → Bool)
+    (hfires : ∀ r ∈ t, fires r = true) (k i : Int) :
+    R (setKey A k ((A k).erase i)) (deleteKeyed fires t k i) := by
+  unfold deleteKeyed
+  cases hf : (rowsOf t k).find? (·.id == i) with
+  | none =>
+    -- no such row in this list: nothing happens, and `i` is not listed under `k`
+    have hni : i ∉ A k := by
+      intro hx
+      obtain ⟨r, hr, e1, e2⟩ := h.cover k i hx
+      have := List.find?_eq_none.mp hf r (mem_rowsOf.mpr ⟨hr, e2⟩)
+      simp [e1] at this
+    have : setKey A k ((A k).erase i) = A := by
+      funext k'
+      by_cases hk : k' = k
+      · subst hk; rw [setKey_same, List.erase_of_not_mem hni]
+      · rw [setKey_other _ _ hk]
+    simp only [this]; exact h
+  | some old =>
+    obtain ⟨ht, hid, hk⟩ := find_rowsOf h hf
+    simp only [hfires old ht, if_true]
+    have := R_spliceOut h ht
+    rw [hid, hk] at this
+    rw [hid, hk]
+    exact this
+
+theorem deleteKeyed_fires {t : Table α} (fires : Row α → Bool) (hv : ∀ r r' : Row α, r.val = r'.val → fires r = fires r')
+    (hfires : ∀ r ∈ t, fires r = true) (k i : Int) : ∀ r ∈ deleteKeyed fires t k i, fires r = true := by
+  unfold deleteKeyed
+  cases (rowsOf t k).find? (·.id == i) with
+  | none => exact hfires
+  | some old =>
+    intro r hr
+    simp only at hr
+    have hr' := (List.mem_filter.mp hr).1
+    split at hr'
+    · obtain ⟨r0, hr0, rfl⟩ := mem_updNext.mp hr'
+      rw [hv _ r0 (updRow_val _ _ _)]; exact hfires r0 hr0
+    · exact hfires r hr'
+
+theorem foldl_erase_nil {l : List Int} (hn : l.Nodup) (L : List Int) (hs : ∀ x ∈ l, x ∈ L) :
+    L.foldl (fun l i => l.erase i) l = [] := by
+  induction L generalizing l with
+  | nil =>
+    cases l with
+    | nil => rfl
+    | cons a l => exact absurd (hs a (by simp)) (by simp)
+  | cons a L ih =>
+    simp only [List.foldl_cons]
+    apply ih (List.Nodup.erase _ hn)
+    intro x hx
+    have := (List.Nodup.mem_erase_iff hn).mp hx
+    rcases List.mem_cons.mp (hs x this.2) with e | e
+    · exact absurd e this.1
+    · exact e
+
+/-- `DELETE FROM PlaylistEntity WHERE listId = k`: the list of `k` becomes empty, all others stay. -/
+theorem R_clearKey {A : Int → List Int} {t : Table α} (h : R A t) (fires : Row α → Bool)
+    (hv : ∀ r r' : Row α, r.val = r'.val → fires r = fires r')
+    (hfires : ∀ r ∈ t, fires r = true) (k : Int) :
+    R (setKey A k []) (clearKey fires t k) := by
+  unfold clearKey
+  have key : ∀ (L : List Int) (A : Int → List Int) (t : Table α), R A t → (∀ r ∈ t, fires r = true) →
+      R (setKey A k (L.foldl (fun l i => l.erase i) (A k))) (L.foldl (fun t i => deleteKeyed fires t k i) t) ∧
+      ∀ r ∈ L.foldl (fun t i => deleteKeyed fires t k i) t, fires r = true := by
+    intro L
+    induction L with
+    | nil =>
+      intro A t h hf
+      have : setKey A k (A k) = A := by
+        funext k'; by_cases hk : k' = k
+        · subst hk; simp
+        · simp [setKey_other _ _ hk]
+      simp only [List.foldl_nil, this]; exact ⟨h, hf⟩
+    | cons a L ih =>
+      intro A t h hf
+      simp only [List.foldl_cons]
+      have h1 := R_deleteKeyed h fires hf k a
+      have hf1 := deleteKeyed_fires fires hv hf k a
+      have := ih _ _ h1 hf1
+      simp only [setKey_same] at this
+      have e : setKey (setKey A k ((A k).erase a)) k (L.foldl (fun l i => l.erase i) ((A k).erase a)) =
+          setKey A k (L.foldl (fun l i => l.erase i) ((A k).erase a)) := by
+        funext k'; by_cases hk : k' = k
+        · subst hk; simp
+        · simp [setKey_other _ _ hk]
+      rw [e] at this; exact this
+  have := (key ((rowsOf t k).map (·.id)) A t h hfires).1
+  rw [foldl_erase_nil (h.nodup k)] at this
+  · exact this
+  · intro x hx
+    obtain ⟨r, hr, e1, e2⟩ := h.cover k x hx
+    exact List.mem_map.mpr ⟨r, mem_rowsOf.mpr ⟨hr, e2⟩, e1⟩
+
+/-! ### the four-statement splice of playlist_table::update (move to another key) -/
+
+/-- Characterised form of `move` to a different key. -/
+def moveRow (i ok onext nk target : Int) (v : α) (r : Row α) : Row α :=
+  if r.id = i then ⟨i, nk, target, v⟩
+  else if r.next = i ∧ r.key = ok then { r with next := onext }
+  else if r.next = target ∧ r.key = nk then { r with next := i }
+  else r
+
+theorem move_eq {A : Int → List Int} {t : Table α} (h : R A t) {old : Row α} (hold : old ∈ t)
+    {nk target : Int} (hk : nk ≠ old.key) (ht : 0 ≤ target) (v : α) :
+    move t old.id old.key old.next nk target v = t.map (moveRow old.id old.key old.next nk target v) := by
+  unfold move updNext
+  simp only [List.map_map]
+  apply List.map_congr_left
+  intro r hr
+  have hpos := h.id_pos old hold
+  have hnn := h.next_nonneg hr
+  simp only [Function.comp]
+  by_cases hid : r.id = old.id
+  · have hr' : r = old := eq_of_id_eq h.ids_nodup hr hold hid
+    subst hr'
+    have h1 : -(1 + r.next) ≠ r.id := by omega
+    have h3 : r.key ≠ nk := Ne.symm hk
+    simp [updRow, moveRow, h1, h3]
+  · have s1 : updRow (fun r => r.id == old.id) (fun n => -(1 + n)) r = r := updRow_neg (by simpa using hid)
+    rw [s1]
+    by_cases c1 : r.next = old.id ∧ r.key = old.key
+    · have s2 : updRow (fun r => r.next == old.id && r.key == old.key) (fun _ => old.next) r = { r with next := old.next } := by
+        unfold updRow; simp [c1.1, c1.2]
+      rw [s2]
+      have s3 : updRow (fun r => r.next == target && r.key == nk) (fun _ => old.id) { r with next := old.next }
+          = { r with next := old.next } := by
+        apply updRow_neg
+        have : r.key ≠ nk := by rw [c1.2]; exact Ne.symm hk
+        simp [this]
+      rw [s3]
+      simp only [moveRow, if_neg hid, if_pos c1]
+      have : ((r.id == old.id) = true) = False := by simpa using hid
+      simp [hid]
+    · have s2 : updRow (fun r => r.next == old.id && r.key == old.key) (fun _ => old.next) r = r := by
+        apply updRow_neg
+        by_cases c : r.next = old.id
+        · have : r.key ≠ old.key := fun e => c1 ⟨c, e⟩
+          simp [this]
+        · simp [c]
+      rw [s2]
+      by_cases c2 : r.next = target ∧ r.key = nk
+      · have s3 : updRow (fun r => r.next == target && r.key == nk) (fun _ => old.id) r = { r with next := old.id } := by
+          unfold updRow; simp [c2.1, c2.2]
+        rw [s3]
+        simp only [moveRow, if_neg hid, if_neg c1, if_pos c2]
+        simp [hid]
+      · have s3 : updRow (fun r => r.next == target && r.key == nk) (fun _ => old.id) r = r := by
+          apply updRow_neg
+          by_cases c : r.next = target
+          · have : r.key ≠ nk := fun e => c2 ⟨c, e⟩
+            simp [this]
+          · simp [c]
+        rw [s3]
+        simp only [moveRow, if_neg hid, if_neg c1, if_neg c2]
+        simp [hid]
+
+theorem R_move {A : Int → List Int} {t : Table α} (h : R A t) {old : Row α} (hold : old ∈ t)
+    {nk target : Int} (hk : nk ≠ old.key) (hb : target = 0 ∨ target ∈ A nk) (v : α) :
+    R (setKey (setKey A old.key ((A old.key).erase old.id)) nk (Ordered.insertBefore target old.id (A nk)))
+      (move t old.id old.key old.next nk target v) := by
+  have ht0 : 0 ≤ target := by
+    rcases hb with hb | hb
+    · omega
+    · exact Int.le_of_lt (h.pos hb)
+  rw [move_eq h hold hk ht0]
+  have hio : old.id ∈ A old.key := h.mem old hold
+  have hin : old.id ∉ A nk := fun hx => hk (h.key_unique hx hio)
+  have hnext := h.next old hold
+  have hmem : ∀ {r' : Row α}, r' ∈ t.map (moveRow old.id old.key old.next nk target v) ↔
+      ∃ r ∈ t, moveRow old.id old.key old.next nk target v r = r' := by
+    intro r'; simp
+  have hmid : ∀ r, (moveRow old.id old.key old.next nk target v r).id = r.id := by
+    intro r; unfold moveRow
+    split
+    · rename_i e; exact e.symm
+    · split
+      · rfl
+      · split <;> rfl
+  have hset : ∀ k', k' ≠ nk → k' ≠ old.key →
+      setKey (setKey A old.key ((A old.key).erase old.id)) nk (Ordered.insertBefore target old.id (A nk)) k' = A k' := by
+    intro k' h1 h2; rw [setKey_other _ _ h1, setKey_other _ _ h2]
+  have hsetO : setKey (setKey A old.key ((A old.key).erase old.id)) nk (Ordered.insertBefore target old.id (A nk)) old.key
+      = (A old.key).erase old.id := by
+    rw [setKey_other _ _ (Ne.symm hk), setKey_same]
+  constructor
+  · have : ids (t.map (moveRow old.id old.key old.next nk target v)) = ids t := by
+      simp only [ids, List.map_map]
+      apply List.map_congr_left
+      intro r _; exact hmid r
+    rw [this]; exact h.ids_nodup
+  · intro r hr
+    obtain ⟨r0, hr0, rfl⟩ := hmem.mp hr
+    rw [hmid]; exact h.id_pos r0 hr0
+  · intro k'
+    by_cases h1 : k' = nk
+    · subst h1; rw [setKey_same]; exact nodup_insertBefore (h.nodup _) hin
+    · by_cases h2 : k' = old.key
+      · subst h2; rw [hsetO]; exact List.Nodup.erase _ (h.nodup _)
+      · rw [hset k' h1 h2]; exact h.nodup _
+  · intro r hr
+    obtain ⟨r0, hr0, rfl⟩ := hmem.mp hr
+    rw [hmid]
+    by_cases hid : r0.id = old.id
+    · have : (moveRow old.id old.key old.next nk target v r0).key = nk := by simp [moveRow, hid]
+      rw [this, setKey_same, mem_insertBefore]; left; exact hid
+    · have hkey : (moveRow old.id old.key old.next nk target v r0).key = r0.key := by
+        unfold moveRow; rw [if_neg hid]; split
+        · rfl
+        · split <;> rfl
+      rw [hkey]
+      have hm := h.mem r0 hr0
+      by_cases h1 : r0.key = nk
+      · rw [h1, setKey_same, mem_insertBefore]; right; exact h1 ▸ hm
+      · by_cases h2 : r0.key = old.key
+        · rw [h2, hsetO]; exact (List.mem_erase_of_ne hid).mpr (h2 ▸ hm)
+        · rw [hset _ h1 h2]; exact hm
+  · intro r hr
+    obtain ⟨r0, hr0, rfl⟩ := hmem.mp hr
+    rw [hmid]
+    by_cases hid : r0.id = old.id
+    · have e1 : (moveRow old.id old.key old.next nk target v r0).key = nk := by simp [moveRow, hid]
+      have e2 : (moveRow old.id old.key old.next nk target v r0).next = target := by simp [moveRow, hid]
+      rw [e1, e2, setKey_same, hid]
+      exact (succ_insertBefore_new hin hb).symm
+    · have hkey : (moveRow old.id old.key old.next nk target v r0).key = r0.key := by
+        unfold moveRow; rw [if_neg hid]; split
+        · rfl
+        · split <;> rfl
+      rw [hkey]
+      have hm := h.mem r0 hr0
+      have hnx := h.next r0 hr0
+      by_cases h1 : r0.key = nk
+      · have hne : r0.key ≠ old.key := by rw [h1]; exact hk
+        have e : (moveRow old.id old.key old.next nk target v r0).next = if r0.next = target then old.id else r0.next := by
+          unfold moveRow; rw [if_neg hid, if_neg (fun c => hne c.2)]
+          by_cases c : r0.next = target
+          · simp [c, h1]
+          · simp [c]
+        rw [e, h1, setKey_same, succ_insertBefore (h.nodup nk) (h.ne0 nk) hin hb (h1 ▸ hm), ← h1, ← hnx]
+      · by_cases h2 : r0.key = old.key
+        · have e : (moveRow old.id old.key old.next nk target v r0).next = if r0.next = old.id then old.next else r0.next := by
+            unfold moveRow; rw [if_neg hid]
+            by_cases c : r0.next = old.id
+            · simp [c, h2]
+            · simp [c, h1]
+          rw [e, h2, hsetO, succ_erase (h.nodup _) (h.ne0 _) (h2 ▸ hm) hid, ← h2, ← hnx, h2, ← hnext]
+        · have e : (moveRow old.id old.key old.next nk target v r0).next = r0.next := by
+            unfold moveRow; rw [if_neg hid, if_neg (fun c => h2 c.2), if_neg (fun c => h1 c.2)]
+          rw [e, hset _ h1 h2]; exact hnx
+  · intro k' x hx
+    by_cases h1 : k' = nk
+    · subst h1
+      rw [setKey_same, mem_insertBefore] at hx
+      rcases hx with rfl | hx
+      · exact ⟨_, hmem.mpr ⟨old, hold, rfl⟩, hmid old, by simp [moveRow]⟩
+      · obtain ⟨r, hr, e1, e2⟩ := h.cover _ x hx
+        have hid : r.id ≠ old.id := by
+          intro e; have := eq_of_id_eq h.ids_nodup hr hold e; rw [this] at e2; exact hk e2.symm
+        refine ⟨_, hmem.mpr ⟨r, hr, rfl⟩, by rw [hmid]; exact e1, ?_⟩
+        unfold moveRow; rw [if_neg hid]; split
+        · exact e2
+        · split <;> exact e2
+    · by_cases h2 : k' = old.key
+      · subst h2
+        rw [hsetO] at hx
+        have hx' := (List.Nodup.mem_erase_iff (h.nodup _)).mp hx
+        obtain ⟨r, hr, e1, e2⟩ := h.cover _ x hx'.2
+        have hid : r.id ≠ old.id := by rw [e1]; exact hx'.1
+        refine ⟨_, hmem.mpr ⟨r, hr, rfl⟩, by rw [hmid]; exact e1, ?_⟩
+        unfold moveRow; rw [if_neg hid]; split
+        · exact e2
+        · split <;> exact e2
+      · rw [hset k' h1 h2] at hx
+        obtain ⟨r, hr, e1, e2⟩ := h.cover _ x hx
+        have hid : r.id ≠ old.id := by
+          intro e; have := eq_of_id_eq h.ids_nodup hr hold e; rw [this] at e2; exact h2 e2.symm
+        refine ⟨_, hmem.mpr ⟨r, hr, rfl⟩, by rw [hmid]; exact e1, ?_⟩
+        unfold moveRow; rw [if_neg hid]; split
+        · exact e2
+        · split <;> exact e2
+
+theorem R_setVal {A : Int → List Int} {t : Table α} (h : R A t) (i : Int) (v : α) : R A (setVal t i v) := by
+  have hm : ∀ {r' : Row α}, r' ∈ setVal t i v ↔ ∃ r ∈ t, (if (r.id == i) = true then { r with val := v } else r) = r' := by
+    intro r'; simp [setVal]
+  have hid : ∀ r : Row α, (if (r.id == i) = true then { r with val := v } else r).id = r.id := by intro r; split <;> rfl
+  have hkey : ∀ r : Row α, (if (r.id == i) = true then { r with val := v } else r).key = r.key := by intro r; split <;> rfl
+  have hnext : ∀ r : Row α, (if (r.id == i) = true then { r with val := v } else r).next = r.next := by intro r; split <;> rfl
+  constructor
+  · have : ids (setVal t i v) = ids t := by
+      simp only [ids, setVal, List.map_map]; apply List.map_congr_left; intro r _; exact hid r
+    rw [this]; exact h.ids_nodup
+  · intro r hr; obtain ⟨r0, hr0, rfl⟩ := hm.mp hr; rw [hid]; exact h.id_pos r0 hr0
+  · exact h.nodup
+  · intro r hr; obtain ⟨r0, hr0, rfl⟩ := hm.mp hr; rw [hid, hkey]; exact h.mem r0 hr0
+  · intro r hr; obtain ⟨r0, hr0, rfl⟩ := hm.mp hr; rw [hid, hkey, hnext]; exact h.next r0 hr0
+  · intro k x hx
+    obtain ⟨r, hr, e1, e2⟩ := h.cover k x hx
+    exact ⟨_, hm.mpr ⟨r, hr, rfl⟩, by rw [hid]; exact e1, by rw [hkey]; exact e2⟩
+
+/-! ### the backwards walk (`sort_ids`, `get_for_list`) -/
 
 theorem lookupNext_unique {rows : Table α} {c : Int} {r : Row α} (hr : r ∈ rows) (hc : r.next = c)
     (hu : ∀ r' ∈ rows, r'.next = c → r' = r) : lookupNext rows c = some r := by
@@ -543,9 +933,6 @@ theorem lookupNext_none {rows : Table α} {c : Int} (h : ∀ r ∈ rows, r.next 
   rw [List.find?_eq_none]
   intro r hr
   simpa using h r (List.mem_reverse.mp hr)
-
-theorem mem_rowsOf {t : Table α} {k : Int} {r : Row α} : r ∈ rowsOf t k ↔ r ∈ t ∧ r.key = k := by
-  simp [rowsOf]
 
 theorem succ_mid {l1 suf : List Int} {p : Int} (hn : (l1 ++ p :: suf).Nodup) :
     succ (l1 ++ p :: suf) p = suf.headD 0 := by
